@@ -32,10 +32,11 @@ EscAssign(t, run, tgt, done) ==    \* done: the first ";" of a target-specific v
   ELSE IF tgt /\ Head(t) = ";" THEN [k \in 1..(2 * run) |-> QBSL] \o <<";">> \o EscAssign(Tail(t), 0, tgt, TRUE)
   ELSE [k \in 1..run |-> QBSL] \o <<Head(t)>> \o EscAssign(Tail(t), 0, tgt, done)
 \* make/syntax.py escape_str for Syntax.target (dep = FALSE) / Syntax.dependency (dep = TRUE):
-\* "$" doubled; before a glob character, blank, TAB, "#", "%", ":" (and "|" in prerequisites, "~" as
+\* "$" doubled; before a glob character, blank, TAB, "#", ":" (and "%" in targets, "|" in prerequisites, "~" as
 \* the first character) the preceding run of backslashes is doubled and one more backslash added
 Bsl(n) == [k \in 1..n |-> QBSL]
-PathSpecial(c, dep) == c \in {"?", "*", "[", "]", " ", "TAB", "#", "%", ":"} \/ (dep /\ c = "|")
+\* ("%" only in targets: in a prerequisite of an explicit rule GNU Make keeps the backslash)
+PathSpecial(c, dep) == c \in {"?", "*", "[", "]", " ", "TAB", "#", ":"} \/ (dep /\ c = "|") \/ (~dep /\ c = "%")
 RECURSIVE MkEscPathR(_, _, _, _)
 MkEscPathR(t, run, dep, first) ==
   IF t = <<>> THEN Bsl(run)
